@@ -1558,8 +1558,18 @@ def eval_guard(c, a, st, v):
     if not flags:
         # no operation at all, or the loop never ran: flags are the initial fill
         if is_fail(v):
+            # ... which is a legitimate refusal only when the layering was entered (the path decided that the initial
+            # frontier — the zero positions of the indegrees — is empty) and there is an operation left unvisited
+            n_ops = inv.values_len(a["f"].f["h"].f["x"])
+            consulted = []
+
+            def visit(t):
+                if len(t) == 2 and t[0] in ("nzero", "zero") and isinstance(t[1], tuple):
+                    consulted.append(t)
+            _walk_terms(st, visit)
             c.ob("REJ", "eval refuses only when some operation is unvisited",
-                 "None ⇒ the layering found an unvisited operation (this path returns None without consulting it)", False, st)
+                 "None ⇒ the layering found an unvisited operation (this path returns None without consulting it)",
+                 bool(consulted) and st.ge(n_ops, 1), st)
         return
     X = sorted(flags, key=repr)[0]
     # the array whose maximum the guard reads: the loop-carried flags, or the flags after one more step of the loop
